@@ -271,7 +271,7 @@ if cmdline.include:
 
 def skip_file(fn):
     # does file name match regex from option --skip?
-    return cmdline.skip and re.search(r'\A' + cmdline.skip + r'\Z', fn)
+    return cmdline.skip and re.search(r'\A(?:' + cmdline.skip + r')\Z', fn)
 
 todo = cmdline.file
 done = []
